@@ -296,8 +296,8 @@ theorem close_handshake_mu_le (h : HS) :
 /-- the bound, concretely: an established quiet channel on which one side calls `close()` needs at most 5 more
     steps (CLOSE delivered, CLOSE reply delivered, two cleanups — 4 happen), for every window size -/
 theorem close_handshake_bound_example (w : Nat) : ((HS.init w).step (.app true .close)).mu = 5 := by
-  simp [HS.init, HS.step, HS.enabled, HS.put, appOp, close, flushSendBuf, closeSend, discardRecv, R.andThen, R.ok,
-    R.pre, sendPkt, sentMsgs, schedCount, HS.mu, pot, phiS, phiR, wMsgs, wMsg]
+  simp [HS.init, HS.step, HS.enabled, HS.put, appOp, close, flushSendBuf, flushSendTail, pauseResumeWriting, closeSend,
+    discardRecv, R.andThen, R.ok, R.pre, sendPkt, sentMsgs, schedCount, HS.mu, pot, phiS, phiR, wMsgs, wMsg]
 
 /-- **close_handshake_terminates (terminal state).**  After ANY interleaving of application calls, deliveries and
     cleanups: if nothing is in flight or scheduled any more, at least one side has sent its CLOSE, and neither
@@ -426,7 +426,7 @@ def startingPair : Chan × Chan :=
      paused := .starting, session := true, trace := [.made], fo := .finished })
 
 theorem startingPair_bothOpen : BothOpen startingPair.1 startingPair.2 := by
-  refine ⟨rfl, rfl, rfl, ?_, rfl, rfl, rfl, ?_⟩ <;> (constructor <;> decide)
+  refine ⟨rfl, rfl, rfl, ?_, rfl, rfl, rfl, ?_, rfl, rfl⟩ <;> (constructor <;> decide)
 
 /-- the server closes the channel without answering the request (what `chan.close()` inside `exec_requested` does) -/
 def closeInStartup : HS :=
